@@ -475,6 +475,13 @@ func doCheck(chk *meta.Check, tier string, seed uint64, runsOverride int, onlyBa
 			if r.Violation != nil {
 				vios = append(vios, vio{r, bo.batch, tape.Mix(propSeed, uint64(1000+oi))})
 			}
+			for _, ex := range r.Extra {
+				r2 := r
+				e := ex
+				r2.Violation = &e
+				r2.Extra = nil
+				vios = append(vios, vio{r2, bo.batch, tape.Mix(propSeed, uint64(1000+oi))})
+			}
 		}
 	}
 	code := 0
@@ -511,8 +518,14 @@ func doCheck(chk *meta.Check, tier string, seed uint64, runsOverride int, onlyBa
 				if json.Unmarshal(b, &rf) == nil && rf.Tape != nil {
 					res := runTapes(bi, rf.Property, meta.Batch{World: rf.World, Profile: rf.Profile, PerProc: 1}, [][]uint32{rf.Tape, rf.Tape, rf.Tape}, false)
 					for _, rr := range res {
-						if rr.Violation != nil && matchFinding(findingsFile{Findings: []finding{*f}}, chk.ID, rr.Violation) != nil {
-							repro = "recorded history " + f.Replay + " reproduces it"
+						all := append([]sim.Violation(nil), rr.Extra...)
+						if rr.Violation != nil {
+							all = append(all, *rr.Violation)
+						}
+						for vi := range all {
+							if matchFinding(findingsFile{Findings: []finding{*f}}, chk.ID, &all[vi]) != nil {
+								repro = "recorded history " + f.Replay + " reproduces it"
+							}
 						}
 					}
 				}
@@ -655,6 +668,20 @@ func sameViolation(a, b *sim.Violation) bool {
 	return a != nil && b != nil && a.Class == b.Class
 }
 
+// hasViolation reports whether result r shows a violation of v's class
+// (as its main violation or among the extra ones).
+func hasViolation(r sim.Result, v *sim.Violation) bool {
+	if sameViolation(r.Violation, v) {
+		return true
+	}
+	for i := range r.Extra {
+		if sameViolation(&r.Extra[i], v) {
+			return true
+		}
+	}
+	return false
+}
+
 // shrink minimises the tape while the same violation class persists.
 func shrink(bi *buildInfo, prop string, b meta.Batch, tp []uint32, v *sim.Violation) ([]uint32, int) {
 	deadline := time.Now().Add(75 * time.Second)
@@ -670,7 +697,7 @@ func shrink(bi *buildInfo, prop string, b meta.Batch, tp []uint32, v *sim.Violat
 		bestI := -1
 		for i := range cands {
 			r, ok := res[i]
-			if !ok || !sameViolation(r.Violation, v) {
+			if !ok || !hasViolation(r, v) {
 				continue
 			}
 			if bestI < 0 || less(cands[i], cands[bestI]) {
@@ -817,7 +844,7 @@ func reportViolation(bi *buildInfo, chk *meta.Check, b meta.Batch, r sim.Result,
 		var first *sim.Result
 		for i := 0; i < tries; i++ {
 			ri, ok := res[i]
-			if ok && sameViolation(ri.Violation, r.Violation) {
+			if ok && hasViolation(ri, r.Violation) {
 				repro++
 				hashes[ri.TraceHash]++
 				if first == nil {
